@@ -1,6 +1,7 @@
 /* C13: include/proto/mpeg2ts.h on hostile bytes of symbolic size.  -DVF_FN_<name>:
  *   is_valid     one TS packet (fixed-header validator, loop-free)
- *   size_detect  receive buffer; loops closed by loops/mpeg2ts_size_detect.json
+ *   size_detect  receive buffer under --dfcc: NOT registered (does not finish, see
+ *                mpeg2ts_size_detect_plain.c for the registered plain-mode job)
  *   get_next     receive buffer + cursor; loop closed by loops/mpeg2ts_get_next.json
  * libc memchr is replaced by the assumed contract of stubs/libc.h. */
 #include "contracts/mpeg2ts.h"
